@@ -327,8 +327,79 @@ func c18R1(c *Ctx) {
 		okB := okF && f == "elements" && lc.nonNeg(i) && lc.nonNeg(lcGE(ln.add(i, -1), 1)) && lc.proveEq(i.add(idx, -1))
 		c.check(okB, cname+"/current", P.InstrPos(in), cname, "Current is elements[index], within bounds whenever a page exists", "Current does not index elements at the cursor, or the index is not within bounds on a non-empty history")
 	})
+	// entries are written by Add's append only: any other write into the
+	// list must provably hit a forward entry (index+1 or beyond), which the
+	// append discards anyway
+	elemWrites := 0
+	for _, fn := range ms {
+		fname := FuncName(fn)
+		eachInstr(fn, func(b *ssa.BasicBlock, _ int, in ssa.Instruction) {
+			var index ssa.Value
+			switch x := in.(type) {
+			case *ssa.Store:
+				ia, ok := x.Addr.(*ssa.IndexAddr)
+				if !ok {
+					return
+				}
+				if f, ok := sliceRootedAtRecvField(fn, ia.X); !ok || f != "elements" {
+					return
+				}
+				index = ia.Index
+			case *ssa.Call:
+				bi, ok := x.Call.Value.(*ssa.Builtin)
+				if !ok || (bi.Name() != "copy" && bi.Name() != "clear") {
+					return
+				}
+				if f, ok := sliceRootedAtRecvField(fn, x.Call.Args[0]); !ok || f != "elements" {
+					return
+				}
+			default:
+				return
+			}
+			elemWrites++
+			ok := index != nil
+			if ok {
+				paths, complete := enumeratePaths(fn, b, 256)
+				ok = complete && len(paths) > 0
+				for _, pf := range paths {
+					lc := newLcPath(P, fn, pf)
+					assume(lc, cases[1])
+					lc.useFacts()
+					if lc.infeasible() {
+						continue
+					}
+					if sl, isSl := unwrapLoad(in.(*ssa.Store).Addr.(*ssa.IndexAddr).X).(*ssa.Slice); isSl {
+						_ = sl
+						ok = false // an index relative to a sub-slice: not followed
+						break
+					}
+					if !lc.nonNeg(lcGE(lc.num(index).add(idx, -1), 1)) {
+						ok = false
+						break
+					}
+				}
+			}
+			c.check(ok, fname+"/element-write", P.InstrPos(in), fname, "writes forward entries only", "an operation writes into the list of pages at a position that is not known to lie after the current page: entries up to the cursor must survive every operation")
+		})
+	}
+	c.info("history_element_writes", elemWrites)
 	// nobody else writes the fields
 	c18NoForeignWrites(c, "servitor/history", "History")
+}
+
+// sliceRootedAtRecvField: v is recv.field or a sub-slice of it.
+func sliceRootedAtRecvField(fn *ssa.Function, v ssa.Value) (string, bool) {
+	for i := 0; i < 6; i++ {
+		if f, ok := sliceOfRecvField(fn, v); ok {
+			return f, true
+		}
+		sl, ok := v.(*ssa.Slice)
+		if !ok {
+			return "", false
+		}
+		v = sl.X
+	}
+	return "", false
 }
 
 func sliceOfRecvField(fn *ssa.Function, v ssa.Value) (string, bool) {
@@ -388,6 +459,42 @@ func c18NoForeignWrites(c *Ctx, pkg, typ string) {
 		})
 	}
 	c.info("stores_"+typ, n)
+	// nobody outside copies a whole value either: a copy shares the storage
+	// (backing array, map) of the original, and assigning one back rewrites
+	// every field at once behind the operations' back
+	isTyp := func(t types.Type) bool {
+		nm, ok := t.(*types.Named)
+		if !ok {
+			return false
+		}
+		o := nm.Origin().Obj()
+		_, isStruct := nm.Underlying().(*types.Struct)
+		return isStruct && o.Pkg() != nil && o.Pkg().Path() == pkg && o.Name() == typ
+	}
+	copies := 0
+	for _, fn := range P.Funcs {
+		if P.PkgOf(fn) == pkg || !strings.HasPrefix(P.PkgOf(fn), "servitor") {
+			continue
+		}
+		eachInstr(fn, func(_ *ssa.BasicBlock, _ int, in ssa.Instruction) {
+			switch x := in.(type) {
+			case *ssa.UnOp:
+				if x.Op == token.MUL && isTyp(x.Type()) {
+					copies++
+					c.bad(FuncName(fn)+"/copies:"+typ, P.InstrPos(in), FuncName(fn), "a "+typ+" is copied by value outside its package: the copy shares its storage with the original, so an operation on one silently changes (or a later assignment of the copy undoes only part of) the other")
+				}
+			case *ssa.Store:
+				if isTyp(x.Val.Type()) {
+					if _, zero := x.Val.(*ssa.Const); zero {
+						return
+					}
+					copies++
+					c.bad(FuncName(fn)+"/assigns:"+typ, P.InstrPos(in), FuncName(fn), "a whole "+typ+" value is assigned outside its package: all its fields are rewritten behind the back of its operations")
+				}
+			}
+		})
+	}
+	c.check(copies == 0, pkg+"."+typ+"/used-in-place", pkg, pkg, typ+" values are only used in place (through their address) outside their package", fmt.Sprintf("%d whole-value copies or assignments of %s outside its package", copies, typ))
 }
 
 // containsHyps: on a path of a Feed method, the facts `f.Contains(k)` become
@@ -669,6 +776,28 @@ func c18R4(c *Ctx) {
 					vals[fieldOf(fa).Name()] = k
 				}
 			}
+		})
+		// every return hands out that very allocation
+		eachInstr(fn, func(_ *ssa.BasicBlock, _ int, in ssa.Instruction) {
+			ret, ok := in.(*ssa.Return)
+			if !ok || len(ret.Results) != 1 {
+				return
+			}
+			own := al != nil
+			var walk func(v ssa.Value, d int)
+			walk = func(v ssa.Value, d int) {
+				if ph, ok := v.(*ssa.Phi); ok && d < 6 {
+					for _, e := range ph.Edges {
+						walk(e, d+1)
+					}
+					return
+				}
+				if v != ssa.Value(al) {
+					own = false
+				}
+			}
+			walk(ret.Results[0], 0)
+			c.check(own, fname+"/returns-own", P.InstrPos(ret), fname, "returns the feed it has just set up", name+" can return something else than the feed whose bounds and cursor it has just set up (another constructor's result, a remembered feed): the positions of what is appended later are then relative to other bounds")
 		})
 		switch name {
 		case "Create":
